@@ -99,7 +99,7 @@
 // Minimal case: POST maxlabel/100 and POST maxlabel/160, both 200.  trace: 1@updateMaxLabel:after-read
 // 0@updateMaxLabel:after-read.  GET maxlabel answers 100; every sequential order answers 160.  Second shape: two POST
 // raw?mutate=true of different blocks that introduce supervoxels 50 and 60; the maximum-label updates run in goroutines
-// spawned by the write path (write.go :193, :347; labelidx.go :955): maxlabel ends at 50 although label 60 is stored.
+// spawned by the write path (write.go :193, :347; labelidx.go :953): maxlabel ends at 50 although label 60 is stored.
 // Cause: datatype/labelmap/labelmap.go updateMaxLabel (:2153) compares under the read lock (:2154-2159), releases it and
 // then stores its own value under the write lock without comparing again (:2164-2167); updateBlockMaxLabel (:2183) the same
 // (:2185-2187 -> :2198-2199).  MaxRepoLabel is compared under the write lock (:2172) and is not affected, so newLabel
@@ -159,7 +159,7 @@
 // A -race build of the same test (go test -race -c ...; 60 cases) reports, among others: datastore newVersion appending to
 // node.children / writing node.updated under a read lock against GobEncode of the same node (repo_local.go :1879-1880 vs
 // nodeT.GobEncode), repoManager.newUUID/putNewIDs on the id counters, labelmap VCache.setMapping from two concurrent
-// cleaves (addCleaveToMapping), and a write in neuronjson ServeHTTP (:2488).  testing marks the run failed when the race
+// cleaves (addCleaveToMapping), and the variable err in neuronjson ServeHTTP shared between the handler (about :2483) and the Kafka goroutine it starts (:2474; within one request).  testing marks the run failed when the race
 // detector reports anything, so the -race variant can only be used as a diagnostic.
 //
 // ## Seeded defects and mutations tried (hooked tree, all 28 signatures listed as known)
